@@ -557,6 +557,8 @@ def fit_rscale(xy, uv, wxy=None, wuv=None, scale=None):
             su2v2 = su2 + sv2
 
     det = sxu * syv - sxv * syu
+    if abs(det) <= 1e-10 * (abs(sxu * syv) + abs(sxv * syu)):
+        det = 0.0  # collinear data cannot tell a rotation from a reflection
     if det < 0:
         rot_num = sxv + syu
         rot_denom = sxu - syv
